@@ -170,6 +170,7 @@ func rewrite(path string, src []byte, pkg string) ([]byte, bool, error) {
 			}
 		}
 		var ferr error
+		selectOK := map[*ast.SelectStmt]bool{}
 		rewriteStmts := func(list []ast.Stmt) {
 			for i, s := range list {
 				switch st := s.(type) {
@@ -186,6 +187,11 @@ func rewrite(path string, src []byte, pkg string) ([]byte, bool, error) {
 							needSched = true
 						}
 					}
+				case *ast.SelectStmt:
+					if r := rewriteSelect(st); r != nil {
+						list[i] = r
+						needSched = true
+					}
 				case *ast.GoStmt:
 					fn := &ast.FuncLit{Type: &ast.FuncType{Params: &ast.FieldList{}}, Body: &ast.BlockStmt{List: []ast.Stmt{&ast.ExprStmt{X: st.Call}}}}
 					list[i] = &ast.ExprStmt{X: call("vsched", "Go", fn)}
@@ -196,7 +202,9 @@ func rewrite(path string, src []byte, pkg string) ([]byte, bool, error) {
 		ast.Inspect(f, func(n ast.Node) bool {
 			switch v := n.(type) {
 			case *ast.SelectStmt:
-				ferr = fmt.Errorf("select statement in package cache at %s is not supported by the channel shim", fset.Position(v.Pos()))
+				if !selectOK[v] {
+					ferr = fmt.Errorf("select statement in package cache at %s is not of a form supported by the channel shim (one send/receive case plus default)", fset.Position(v.Pos()))
+				}
 			case *ast.BlockStmt:
 				rewriteStmts(v.List)
 			case *ast.CaseClause:
@@ -252,6 +260,39 @@ func rewrite(path string, src []byte, pkg string) ([]byte, bool, error) {
 		return nil, false, err
 	}
 	return buf.Bytes(), true, nil
+}
+
+// rewriteSelect handles `select { case ch <- struct{}{}: A; default: B }` and the
+// receive form; anything else is left alone (and reported by the caller).
+func rewriteSelect(st *ast.SelectStmt) ast.Stmt {
+	if len(st.Body.List) != 2 {
+		return nil
+	}
+	var comm, def *ast.CommClause
+	for _, c := range st.Body.List {
+		cc := c.(*ast.CommClause)
+		if cc.Comm == nil {
+			def = cc
+		} else {
+			comm = cc
+		}
+	}
+	if comm == nil || def == nil {
+		return nil
+	}
+	var cond ast.Expr
+	switch c := comm.Comm.(type) {
+	case *ast.SendStmt:
+		cond = call("vsched", "TrySendStruct", c.Chan)
+	case *ast.ExprStmt:
+		if u, ok := c.X.(*ast.UnaryExpr); ok && u.Op == token.ARROW {
+			cond = call("vsched", "TryRecvStruct", u.X)
+		}
+	}
+	if cond == nil {
+		return nil
+	}
+	return &ast.IfStmt{Cond: cond, Body: &ast.BlockStmt{List: comm.Body}, Else: &ast.BlockStmt{List: def.Body}}
 }
 
 func call(pkg, fn string, args ...ast.Expr) *ast.CallExpr {
